@@ -26,7 +26,10 @@ pub fn run_pair(prop: &'static str, idx: u64, rng: &mut Rng, ctx: &Ctx, tweak: f
     sim.run(rng);
     // socket reuse: a second (sometimes third) connection on the same sockets after TIME-WAIT
     let mut incarnations = 1u16;
-    while incarnations < 3 && rng.chance(1, 3) && sim.stats.completed && sim.stats.events <= cfg.max_events {
+    while incarnations < 3 && (sim.stats.aborted_by_plan || rng.chance(1, 3)) && sim.stats.completed && sim.stats.events <= cfg.max_events {
+        if sim.stats.aborted_by_plan {
+            out.count("connections_aborted_by_the_applications", 1);
+        }
         let tag2 = rng.next_u64();
         if !sim.reincarnate(rng, tag2, ctx.thorough(), incarnations) {
             out.count("reuse_not_possible_sockets_not_closed", 1);
